@@ -3,6 +3,7 @@ package c18
 
 import (
 	"bytes"
+	"errors"
 	"fmt"
 	"strings"
 	"testing"
@@ -258,6 +259,7 @@ type DecScript struct {
 	Blocks  [][]byte `json:"blocks"` // successive header blocks fed to one decoder
 	Cuts    [][]int  `json:"cuts"`   // per block: fragment sizes for Write
 	MaxSize uint32   `json:"max_size"`
+	MaxStr  int      `json:"max_str,omitempty"` // >0: SetMaxStringLength on every decoder (the HTTP/2 framer always sets one)
 }
 
 var colDec = vstat.New("C18", "c18.decode")
@@ -315,13 +317,27 @@ func genString(t *rapid.T, dst []byte) []byte {
 	}
 }
 
-func genBlock(t *rapid.T) []byte {
+func genBlock(t *rapid.T, maxStr int) []byte {
 	if rapid.IntRange(0, 9).Draw(t, "rawblock") == 0 {
 		return rapid.SliceOfN(rapid.Byte(), 0, 40).Draw(t, "raw")
 	}
 	var b []byte
 	n := rapid.IntRange(0, 8).Draw(t, "nrep")
 	for i := 0; i < n; i++ {
+		if maxStr > 0 && rapid.IntRange(0, 3).Draw(t, "nearlimit") == 0 {
+			// a literal whose name and value are both at, just below or just above the string limit: each
+			// string is legal on its own, the field as a whole is about twice the limit
+			b = append(b, rapid.SampledFrom([]byte{0x40, 0x00, 0x10}).Draw(t, "litkind"))
+			for k := 0; k < 2; k++ {
+				l := maxStr + rapid.SampledFrom([]int{-10, -1, 0, 0, 1}).Draw(t, "dl")
+				if l < 0 {
+					l = 0
+				}
+				b = appendInt(b, 0, 7, uint64(l), 0)
+				b = append(b, strings.Repeat(rapid.SampledFrom([]string{"a", "z", "0"}).Draw(t, "lc"), l)...)
+			}
+			continue
+		}
 		switch rapid.IntRange(0, 11).Draw(t, "rep") {
 		case 0, 1, 2: // indexed, mostly valid
 			idx := uint64(rapid.SampledFrom([]int{1, 2, 8, 61, 62, 63, 64, 70, 0, 200, 1 << 20}).Draw(t, "idx"))
@@ -364,9 +380,10 @@ func genBlock(t *rapid.T) []byte {
 
 func genDec(t *rapid.T) DecScript {
 	s := DecScript{MaxSize: rapid.SampledFrom([]uint32{4096, 4096, 0, 64, 200}).Draw(t, "max")}
+	s.MaxStr = rapid.SampledFrom([]int{0, 0, 16, 100}).Draw(t, "maxstr")
 	n := rapid.IntRange(1, 5).Draw(t, "nblocks")
 	for i := 0; i < n; i++ {
-		b := genBlock(t)
+		b := genBlock(t, s.MaxStr)
 		s.Blocks = append(s.Blocks, b)
 		var cuts []int
 		switch rapid.IntRange(0, 3).Draw(t, "cutk") {
@@ -446,6 +463,12 @@ func execDec(s DecScript) (v *vstat.Violation, classes []string) {
 	frag := rh.NewDecoder(s.MaxSize, nil)  // fed in fragments
 	prist := xh.NewDecoder(s.MaxSize, nil) // pristine x/net copy, block-at-once
 	ref := hpackref.NewDecoder(s.MaxSize)
+	if s.MaxStr > 0 {
+		whole.SetMaxStringLength(s.MaxStr)
+		frag.SetMaxStringLength(s.MaxStr)
+		prist.SetMaxStringLength(s.MaxStr)
+		classes = append(classes, "string-limit-set")
+	}
 	for i, b := range s.Blocks {
 		r := ref.Decode(b)
 		w, werr := runReal(whole, b, nil)
@@ -465,6 +488,12 @@ func execDec(s DecScript) (v *vstat.Violation, classes []string) {
 			prist = nil
 		} else if prist != nil && ((werr == nil) != (perr == nil) || fmt.Sprint(w) != fmt.Sprint(p)) {
 			return vstat.Violf("decode|differs-from-pristine-x/net", "block %d %x: decoder -> %v err=%v; pristine x/net v0.19.0 -> %v err=%v", i, b, w, werr, p, perr), classes
+		}
+		if errors.Is(werr, rh.ErrStringLength) && s.MaxStr > 0 {
+			// a string beyond the configured limit: an implementation limit RFC 7541 leaves open; the
+			// fragmentation and differential oracles above have judged the block
+			classes = append(classes, "rejected:string-beyond-limit")
+			break
 		}
 		if !r.Loose {
 			if (r.Err == nil) != (werr == nil) {
